@@ -10,6 +10,8 @@ checks; oracles are bound by seeds and the accessor's checks; every unchecked ac
 accounted for by a verified mechanism; the Pinocchio handlers perform every constraint of
 the Anchor struct they replace, before the first effect; remaining-account slices are
 routed to the field of their own type.
+Also decided: both TickArraysMut::load wrappers propagate loader errors and skip the upper array only for the
+same account;
 Not decided: the run-time behaviour of the Anchor / SPL checks themselves."""
 import re
 from analysis import cfg, atoms as A, preach, pino, program, accounts as ACC, writes
